@@ -53,7 +53,7 @@ def const_arr(val, nd):
 
 
 class Engine:
-    def __init__(self, repo, db, quick_timeout_ms=500):
+    def __init__(self, repo, db, quick_timeout_ms=120):
         self.src = SourceIndex(repo)
         self.db = db
         self.uf_cache = {}
@@ -509,6 +509,26 @@ class Engine:
         for i, r in enumerate(cd.requires):
             g = fv.to_bool(fv.ev(r, cs, False))
             fv.oblige("pre@" + short, "site%d/requires%d" % (site, i), g, st, node)
+        # the callee's contract was proved for pairwise separate arrays: an array it may modify must
+        # not overlap any other array argument (views of one location need provably different indices)
+        def arrays_of(v):
+            if isinstance(v, SArr):
+                return [v]
+            if isinstance(v, STuple):
+                return [it for it in v.items if isinstance(it, SArr)]
+            return []
+
+        for m in cd.modifies:
+            for am in arrays_of(bound.get(m)):
+                for pn in pnames:
+                    for k_, aq in enumerate(arrays_of(bound.get(pn))):
+                        if aq is am or aq.loc != am.loc:
+                            continue
+                        if pn == m and aq.prefix == am.prefix:
+                            continue
+                        diffs = [a_ != b_ for a_, b_ in zip(am.prefix, aq.prefix)]
+                        g = z3.Or(*diffs) if diffs else z3.BoolVal(False)
+                        fv.oblige("pre@" + short, "site%d/no-alias-%s-%s" % (site, m, pn), g, st, node)
         # float parameters are modelled NaN-free inside the callee: the caller must establish it
         for pn, ty in cd.params:
             if ty[0] == "float" and pn not in cd.options.get("nanable", []):
